@@ -105,6 +105,55 @@ fn locate_one<K: Kern<D>, const D: usize>(tr: &mut Tracer, dt: &Dt<K, D>, q: &[i
     (json!({"q": q, "rs": rs}), !panicked)
 }
 
+/// Bowyer-Watson building blocks (public in core::algorithms::locate): for every query that locates inside a cell,
+/// the conflict region grown from that cell and the boundary of the cavity it leaves
+pub fn op_conflict_batch<K: Kern<D>, const D: usize>(tr: &mut Tracer, obj: usize, dt: &Dt<K, D>, qs: &[Vec<i64>]) -> bool {
+    use delaunay::core::algorithms::locate::{extract_cavity_boundary, find_conflict_region, LocateResult};
+    let kernel = K::default();
+    let mut items: Vec<Value> = Vec::new();
+    let mut ok = true;
+    for q in qs {
+        let pt = lattice_point::<D>(q, tr.s);
+        let g = tr.guard("conflict region", || {
+            let Ok(LocateResult::InsideCell(ck)) = locate(dt.tds(), &kernel, &pt, None) else { return None };
+            let region = find_conflict_region(dt.tds(), &kernel, &pt, ck);
+            let boundary = region.as_ref().ok().map(|r| extract_cavity_boundary(dt.tds(), r));
+            Some((ck, region, boundary))
+        });
+        match g {
+            Guarded::Done(None) => {}
+            Guarded::Done(Some((ck, region, boundary))) => {
+                let start = tr.ckey_id(dt.tds(), ck);
+                match (region, boundary) {
+                    (Ok(r), Some(Ok(b))) => {
+                        let cells: Vec<i64> = r.iter().map(|k| tr.ckey_id(dt.tds(), *k)).collect();
+                        let facets: Vec<Value> = b
+                            .iter()
+                            .map(|f| json!({"cell": tr.ckey_id(dt.tds(), f.cell_key()), "vs": facet_vertex_ids(tr, dt, f.cell_key(), f.facet_index())}))
+                            .collect();
+                        items.push(json!({"q": q, "start": start, "kind": "Ok", "cells": cells, "facets": facets}));
+                    }
+                    (r, b) => {
+                        let e = match (r, b) {
+                            (Err(e), _) => format!("region:{}", variant(&e)),
+                            (_, Some(Err(e))) => format!("boundary:{}", variant(&e)),
+                            _ => "?".into(),
+                        };
+                        items.push(json!({"q": q, "start": start, "kind": "Err", "err": e, "cells": [], "facets": []}));
+                    }
+                }
+            }
+            Guarded::Panicked(msg) => {
+                items.push(json!({"q": q, "start": 0, "kind": "Panic", "msg": msg, "cells": [], "facets": []}));
+                ok = false;
+                break;
+            }
+        }
+    }
+    tr.emit("Conflict", obj, json!({}), json!({"qs": items}), None, !ok);
+    ok
+}
+
 pub type Hull<K, const D: usize> = ConvexHull<K, VData, CData, D>;
 
 pub fn facet_vertex_ids<K: Kern<D>, const D: usize>(tr: &mut Tracer, dt: &Dt<K, D>, ck: CellKey, idx: u8) -> Vec<i64> {
